@@ -117,10 +117,7 @@ enum ChildResult {
 }
 
 fn run_child(sub: &str, json: &str) -> ChildResult {
-    let exe = match std::env::current_exe() {
-        Ok(e) => e,
-        Err(e) => return ChildResult::Broken(format!("current_exe: {e}")),
-    };
+    let exe = vengine::self_exe();
     let mut child = match Command::new(exe)
         .arg(CHILD_FLAG)
         .arg(sub)
@@ -214,8 +211,11 @@ pub fn isolated_with<C: Serialize>(sub: &'static str, case: &C, obs: &mut Obs, h
                 // abort / stack overflow inside the code under test
                 ChildObs { classes: vec![], nontrivial: false, skipped: false, fails: vec![(format!("crash:{sub}-case"), why)] }
             } else {
-                // infrastructure problem (cannot spawn): make it loud, it is not a verdict about linfa
-                ChildObs { classes: vec![], nontrivial: false, skipped: false, fails: vec![("harness:child-process".into(), why)] }
+                // infrastructure problem (cannot spawn / undecodable output): not a verdict about linfa. The case is
+                // counted as not judged; the engine's generator-health rule turns a run in which this happens to more
+                // than a fifth of the cases into INCONCLUSIVE (exit 2)
+                let _ = why;
+                ChildObs { classes: vec!["harness_child_process_unavailable".into()], nontrivial: false, skipped: true, fails: vec![] }
             }
         }
     };
